@@ -14,6 +14,8 @@ from aioftp.common import StreamThrottle, Throttle, ThrottleStreamIO
 from harness import clientdrv, corecheck, gen, judge, mc, report, simnet, tlc, vloop
 from harness import world as W
 
+import contextvars
+CUR_STREAM = contextvars.ContextVar("verif_stream", default=0)
 TICK = 64  # ticks per second: every time and every limit used here is dyadic, so float arithmetic is exact
 
 
@@ -49,19 +51,41 @@ class Tap:
 
     def install(self):
         tap = self
-        self.saved = (Throttle.wait, Throttle.append, Throttle.limit)
-        ow, oa, ol = self.saved
+        self.saved = (Throttle.wait, Throttle.append, Throttle.limit, ThrottleStreamIO.wait, ThrottleStreamIO.append)
+        ow, oa, ol, sw, sa = self.saved
+        ids = {}
+
+        def sid(stream):
+            return ids.setdefault(id(stream), len(ids) + 1)
+
+        async def swait(self_, name):
+            tok = CUR_STREAM.set(sid(self_))
+            try:
+                return await sw(self_, name)
+            finally:
+                CUR_STREAM.reset(tok)
+
+        def sappend(self_, name, data, start):
+            tok = CUR_STREAM.set(sid(self_))
+            try:
+                return sa(self_, name, data, start)
+            finally:
+                CUR_STREAM.reset(tok)
+
+        ThrottleStreamIO.wait = swait
+        ThrottleStreamIO.append = sappend
+        self._strong = []
 
         async def wait(self_):
             t = tap.tr(self_)
             k = sum(1 for e in t if e["ev"] == "WaitBegin") + 1
-            t.append({"ev": "WaitBegin", "k": k, "te": tap.ticks(common._now())})
+            t.append({"ev": "WaitBegin", "k": k, "te": tap.ticks(common._now()), "strm": CUR_STREAM.get()})
             await ow(self_)
             t.append({"ev": "WaitDone", "k": k, "tx": tap.ticks(common._now())})
 
         def append(self_, data, start):
             t = tap.tr(self_)
-            t.append({"ev": "Append", "t": tap.ticks(common._now()), "ts": tap.ticks(start), "n": len(data)})
+            t.append({"ev": "Append", "t": tap.ticks(common._now()), "ts": tap.ticks(start), "n": len(data), "strm": CUR_STREAM.get()})
             return oa(self_, data, start)
 
         def setlimit(self_, value):
@@ -75,7 +99,7 @@ class Tap:
         Throttle.limit = property(ol.fget, setlimit)
 
     def remove(self):
-        Throttle.wait, Throttle.append, Throttle.limit = self.saved
+        Throttle.wait, Throttle.append, Throttle.limit, ThrottleStreamIO.wait, ThrottleStreamIO.append = self.saved
 
     def export(self):
         out = []
